@@ -11,7 +11,7 @@ import time
 from fractions import Fraction
 
 VERIF = os.path.dirname(os.path.dirname(os.path.abspath(__file__)))
-LEAN = os.path.join(VERIF, "lean")
+LEAN = os.environ.get("VERIF_LEAN") or os.path.join(VERIF, "lean")   # VERIF_LEAN: a scratch copy of the lake project (development: seeded-change runs)
 DRIVER = os.path.join(LEAN, ".lake", "build", "bin", "driver")
 REPO = os.environ.get("GENLM_REPO", "/repo")
 # development only (seeded-change runs against a scratch worktree, in parallel): where replay/ and evidence/ are written
